@@ -171,6 +171,20 @@ func checkC02(c c02Case) verdict {
 	if !okk || verr != nil {
 		return bad(nt, labels, "ValidateTOTP rejects the code GenerateTOTP returned for the same instant and parameters (period=%d nil=%v): %v, %v", period, c.NilParam, okk, verr)
 	}
+	// absent parameters MEAN 6 digits, SHA-1, 30 s in validation as in generation: the step's code under another code length
+	// or hash is a wrong code (a validator that reads the code length off the submitted string, or the hash off the key
+	// size, resolves absent parameters differently from generation)
+	if c.NilParam {
+		for _, alt := range [][2]int{{8, 0}, {7, 0}, {10, 0}, {6, 1}, {6, 2}, {8, 1}} {
+			code := ref.MustHOTP(c.Key, n, alt[0], alt[1])
+			if code == got {
+				continue
+			}
+			if okk, verr := otp.ValidateTOTP(secret, code, t, nil); okk || verr == nil {
+				return bad(true, labels, "ValidateTOTP with nil parameters answers (%v, %v) for the step's code under %d digits / hash %d (%q); absent parameters mean 6 digits, SHA-1 (%q)", okk, verr, alt[0], alt[1], code, got)
+			}
+		}
+	}
 	// ... also for the window: with explicit parameters and an admissible window s the codes of the steps n-s..n+s
 	// (and no other step's code) validate, where the step length is the resolved period — a zero period shifts the
 	// window by 30 s per step exactly as an explicit 30 does
